@@ -283,7 +283,7 @@ def run_entry(entry, n, seed, acc, tier):
                     s.vals[13] = ['1']
             meta['ta1'] = True
         if delims:
-            text = doc.text(term=delims[0], ele=delims[1], sub=delims[2], rep=delims[3], eol='' if delims[0] == '\n' else '\n')
+            text = doc.text(term=delims[0], ele=delims[1], sub=delims[2], rep=delims[3], eol='' if delims[0] == '\n' else ch.choice(['\n', '\n', '', '\r\n']))
             meta['delims'] = list(delims)
         else:
             text = doc.text()
